@@ -172,8 +172,28 @@ def check(prop, tier, batch_seed, n_runs, wall_cap, workers=16):
            'digests': set()}
     new_violation = None
     ctx = multiprocessing.get_context('fork')
+    # regression scenarios first: minimised replays of defects that were repaired (they must stay repaired)
+    reg_dir = os.path.join(VERIF, 'regressions')
+    reg_files = sorted(f for f in os.listdir(reg_dir) if f.startswith(prop + '-')) if os.path.isdir(reg_dir) else []
+    agg['regressions'] = len(reg_files)
     with ProcessPoolExecutor(max_workers=workers, mp_context=ctx, initializer=_worker_init) as pool:
-        futs = {}
+        reg_futs = []
+        for name in reg_files:
+            with open(os.path.join(reg_dir, name)) as f:
+                scen = json.load(f)['scenario']
+            reg_futs.append((name, pool.submit(run_seed, prop, scen['seed'], -1, scen)))
+        for name, fut in reg_futs:
+            res = fut.result()
+            if res['harness_error']:
+                agg['harness_errors'].append('regression %s\n%s' % (name, res['harness_error']))
+                continue
+            for v in res['violations']:
+                if v['property'] == prop and known_match(known, prop, v) is None:
+                    path = os.path.join(reg_dir, name)
+                    write_evidence(prop, tier, batch_seed, agg, time.time() - t0, 1, profiles)
+                    print('violation (regression scenario): %s' % json.dumps(v)[:2000])
+                    print('VIOLATION property=%s replay=%s' % (prop, path))
+                    return 1
         it = iter(enumerate(seeds))
         pending = set()
 
@@ -289,6 +309,7 @@ def write_evidence(prop, tier, batch_seed, agg, wall, violations, profiles):
             'known_finding_hits': dict(agg['known_hits']),
             'cross_observations': dict(agg['cross']),
             'harness_errors': len(agg['harness_errors']),
+            'regression_scenarios_replayed': agg.get('regressions', 0),
             'profile': profiles.describe(prop),
         },
         'assumptions': ASSUMPTIONS,
